@@ -69,13 +69,12 @@ fn validate_accepts_exactly() {
     assert!(r.is_ok() == (lens_ok && distinct));
     if r.is_ok() {
         // the shape the byte-window search of the lexer relies on
-        let mut i = 0;
-        while i < 6 {
-            assert!(two_byte_shape(&all[i]));
-            // in particular: the first byte is not a continuation byte
-            assert!(!(all[i].0[0] >= 0x80 && all[i].0[0] <= 0xBF));
-            i += 1;
-        }
+        assert!(two_byte_shape(&all[0]) && two_byte_shape(&all[1]) && two_byte_shape(&all[2]));
+        assert!(two_byte_shape(&all[3]) && two_byte_shape(&all[4]) && two_byte_shape(&all[5]));
+        // in particular: the first byte of a start delimiter is not a continuation byte
+        assert!(!(bs_raw[0] >= 0x80 && bs_raw[0] <= 0xBF));
+        assert!(!(vs_raw[0] >= 0x80 && vs_raw[0] <= 0xBF));
+        assert!(!(cs_raw[0] >= 0x80 && cs_raw[0] <= 0xBF));
     }
     std::mem::forget(r);
     std::mem::forget(d);
